@@ -665,8 +665,8 @@ func (g *tgen) fieldOf(depth, x int) *tfield {
 		f.mode = g.mode(12)
 	case x < 83: // inline struct (generated structs only: unique names)
 		s := g.structNode(depth + 1)
-		if s.lib != "" {
-			f.t = s
+		if s.lib != "" || s.inlineMap {
+			f.t = s // (an inline map held inline would receive the keys of ITS holder's siblings)
 		} else {
 			f.t = s
 			f.inline = true
